@@ -634,6 +634,11 @@ def updateGlobals (P : Parsers) (ord : MapOrder) (caller : Str) (input : Input) 
       | .error (k, e) => (.key k e, g)
       | .ok f => (.ok false, { version := g.version + 1, fields := f })
 
+/-- the type with which the code reads a global setting from the state (`chain.ConfigImpl.Update`: `cf.GetInt32(…)` …,
+`config.DbSettings.Update`: `StringToInterface(v, Int64)` …; table generated by xc48). `none`: never read from the state. -/
+def globalReaderCT (k : Str) : Option CT :=
+  (Generated.C48.globalReaders.find? fun r => r.2.1 = k).map (·.2.2.1)
+
 /-- `GlobalSettings.GetXxx(field)`: the stored string if present and parsable as the field's type, else the
 node-local configuration value (`viper`). `local` is that node-local value. -/
 def globalInForce (P : Parsers) (g : Globals) (name : Str) (ct : CT) (loc : Str) : Str :=
